@@ -35,6 +35,8 @@ LEVEL_NOTE = ('held only on the calls observed; functions whose calls were all c
 TECHNIQUE = 'runtime monitoring: API-boundary wrappers (outermost depth) + sys.monitoring return taps for attribution'
 
 N_SHARDS = 16
+PY_MODULES = ('functions', 'factorials', 'hypergeometric', 'expintegrals', 'bessel', 'orthogonal', 'theta', 'elliptic',
+              'zeta', 'rszeta', 'zetazeros', 'qfunctions')
 PRECS = [10, 53, 100, 333]
 BITMULT = ['2p', '4p', '1000']
 CALL_CAP = {'quick': 1.0, 'thorough': 2.5}
@@ -118,8 +120,8 @@ def kw_precision(ctx, kwargs, ctxprec):
             return None
         if 'prec' in kwargs:
             pr = kwargs['prec']
-            if pr == ctx.inf or pr == float('inf'):
-                return None
+            if pr == ctx.inf or pr == float('inf') or pr == 0:
+                return None             # prec=0 is the library's internal spelling of "exact" (used by its own tests)
             return int(pr)
         if 'dps' in kwargs:
             d = kwargs['dps']
@@ -180,11 +182,27 @@ class BitMonitor(object):
         for code in self._codes:
             args = code.co_varnames[:code.co_argcount + code.co_kwonlyargcount]
             self._has_prec[code] = 'prec' in args
+        # Python-level implementations (mpmath.functions.*): entry precision = context precision at entry
+        import importlib, types
+        self._pycodes = {}
+        for m in PY_MODULES:
+            try:
+                mod = importlib.import_module('mpmath.functions.' + m)
+            except Exception:
+                continue
+            for k, v in vars(mod).items():
+                if isinstance(v, types.FunctionType) and v.__module__ == mod.__name__:
+                    self._pycodes.setdefault(v.__code__, m + ':' + k)
         codes, has_prec, me = self._codes, self._has_prec, self
+        pycodes = self._pycodes
+        pr_slot = self.mp._prec_rounding
         stack = self.stack = []
 
         def on_start(code, off):
             if me.cur_p is None:
+                return
+            if code in pycodes:
+                stack.append((code, pr_slot[0]))
                 return
             if has_prec.get(code):
                 try:
@@ -194,9 +212,10 @@ class BitMonitor(object):
                 stack.append((code, pr))
 
         def on_return(code, off, val):
-            if not has_prec.get(code):
-                return
             if me.cur_p is None:
+                return
+            ispy = code in pycodes
+            if not ispy and not has_prec.get(code):
                 return
             pr = None
             while stack:
@@ -204,6 +223,12 @@ class BitMonitor(object):
                 if c is code:
                     pr = pr0
                     break
+            if ispy:
+                if isinstance(pr, int) and pr > 0 and val is not None and len(me.chain) < 4000:
+                    for label, t in parts_of(val):
+                        if t[1] and t[1].bit_length() > pr:
+                            me.chain.append((t, pycodes[code], pr))
+                return
             if type(val) is not tuple or not isinstance(pr, int) or isinstance(pr, bool) or pr <= 0:
                 return
             for t in U.raws_in(val):
@@ -211,7 +236,7 @@ class BitMonitor(object):
                     me.chain.append((t, codes[code], pr))
 
         def on_unwind(code, off, exc):
-            if has_prec.get(code) and stack and me.cur_p is not None:
+            if (has_prec.get(code) or code in pycodes) and stack and me.cur_p is not None:
                 while stack:
                     c, pr0 = stack.pop()
                     if c is code:
@@ -222,13 +247,15 @@ class BitMonitor(object):
         for c in codes:
             if has_prec[c]:
                 mon.set_local_events(I.TOOL_TAP, c, E.PY_START | E.PY_RETURN)
+        for c in pycodes:
+            mon.set_local_events(I.TOOL_TAP, c, E.PY_START | E.PY_RETURN)
         mon.set_events(I.TOOL_TAP, E.PY_UNWIND)
         self.tap = True
 
     def _uninstall_tap(self):
         from vf import instrument as I
         mon, E = I.mon, I.E
-        for c in self._codes:
+        for c in list(self._codes) + list(self._pycodes):
             mon.set_local_events(I.TOOL_TAP, c, 0)
         mon.set_events(I.TOOL_TAP, 0)
         for ev in (E.PY_START, E.PY_RETURN, E.PY_UNWIND):
@@ -236,7 +263,9 @@ class BitMonitor(object):
         mon.free_tool_id(I.TOOL_TAP)
 
     def blame(self, raw):
-        """innermost libmp routine that returned exactly this value although it was asked (at entry) for fewer bits"""
+        """innermost routine (libmp primitive, else Python-level implementation in mpmath.functions.*) that returned
+        exactly this value although it was asked / entered with a precision of fewer bits.  The chain is in return
+        order, so the first match is the innermost one."""
         for t, name, prec in self.chain:
             if t == raw:
                 return name.split(':')[1]
@@ -277,7 +306,7 @@ class BitMonitor(object):
                 who = self.blame(raw)
                 key = 'C10/' + (who or name)
                 self.sink.violation(key, '%s returned a %s part with %d bits at precision %d (+%d)%s'
-                                    % (name, label, b, p, excess, (' -- unrounded value handed up by libmp.' + who) if who else ''),
+                                    % (name, label, b, p, excess, (' -- unrounded value handed up by ' + who) if who else ''),
                                     case, observed={'bits': b, 'part': label, 'raw': repr(raw)[:200]},
                                     expected='at most %d bits' % p, severity=excess)
                 self.sink.maximum('excess bits ' + key, excess, case)
